@@ -43,6 +43,10 @@ QuotientRepresentable == \A n \in {3, 5, 6} :
 BitLaw == (a >= 0 /\ b >= 0) =>
   /\ (BitTest(a, b) <=> \E k \in 0..MaxExp : Bit(a, k) = 1 /\ Bit(b, k) = 1)
   /\ (b <= 12 => (BitTest(a, ShiftedMask(b)) <=> (a \div Pow2(b)) % 2 = 1))
+(* on negative operands floor division yields the sign-extended two's complement bits, so BitTest
+   agrees with the test on the N-bit patterns *)
+SignedBitLaw == (a \in -128..127 /\ b \in -128..127) =>
+  (BitTest(a, b) <=> BitTest(Wrap("u8", a), Wrap("u8", b)))
 WrapLaw == \A T \in {"i8", "u8", "i16", "u16"} :
   /\ Representable(T, Wrap(T, a * 1000 + b))
   /\ (Wrap(T, a * 1000 + b) - (a * 1000 + b)) % ModTab[T] = 0
@@ -51,10 +55,14 @@ ASSUME TableLaw ==
   /\ Min("i8") = -128 /\ Max("i8") = 127 /\ Min("u8") = 0 /\ Max("u8") = 255
   /\ Min("i16") = -32768 /\ Max("i16") = 32767 /\ Min("u16") = 0 /\ Max("u16") = 65535
   /\ \A T \in Types : Promoted(T) = (IF T \in {"i8", "u8", "i16", "u16"} THEN "i32" ELSE T)
-(* interval_distance: symmetric; positive gap, zero when touching, negative when overlapping *)
+(* interval_distance: symmetric; positive exactly for disjoint intervals; zero exactly when they touch
+   (from outside or from inside); never below minus the length of the longer interval.  (The documented
+   distance is not continuous: [-24,-21] / [-24,-20] is 0 but [-24,-21] / [-23,-20] is -2.) *)
 IntervalLaw == \A a2 \in {Lo, -2, 0, 1, 3, Hi} :
   (a <= b /\ a2 <= q) =>
-    /\ IntervalDistance(a, b, a2, q) = IntervalDistance(a2, q, a, b)
-    /\ (IntervalDistance(a, b, a2, q) > 0 <=> (b < a2 \/ q < a))
-    /\ (IntervalDistance(a, b, a2, q) = 0 => (b = a2 \/ q = a \/ IntervalAmbiguous(a, b, a2, q)))
+    LET d == IntervalDistance(a, b, a2, q) IN
+    /\ d = IntervalDistance(a2, q, a, b)
+    /\ (d > 0 <=> (b < a2 \/ q < a))
+    /\ (d = 0 <=> (b = a2 \/ q = a \/ TouchesInside(a, b, a2, q)))
+    /\ d >= -Max2(b - a, q - a2)
 =============================================================================
